@@ -212,6 +212,9 @@ def build_events(level="full"):
     ev["areas(latlon=False)"] = ("value", areas(latlon=False))
     ev["total_area()"] = ("value", lambda g: {"total": float(g.calculate_total_face_area())})
     ev["total_area(gaussian,3)"] = ("value", lambda g: {"total": float(g.calculate_total_face_area("gaussian", 3))})
+    # the other family at the DEFAULT order (4): an argument vector that coincides with the cached default in one component only
+    ev["total_area(gaussian,4)"] = ("value", lambda g: {"total": float(g.calculate_total_face_area("gaussian", 4))})
+    ev["areas(gaussian,4)"] = ("value", areas("gaussian", 4))
 
     def toxr(fmt):
         def f(g):
